@@ -269,3 +269,67 @@ def replay_h_write_read_verbatim(k, v):
         return False, "verbatim"
     finally:
         shutil.rmtree(d, ignore_errors=True)
+
+
+# ------------------------------------------------------------------ K3b: what the handle reports ---
+RAW = [b"k", b"", b"\xc3\xa9", b"\xff\xfe", b"caf\xc3\xa9", b"\x80"]
+
+
+def _pk(v, hi):
+    for k in range(hi + 1):
+        if v == k:
+            return k
+    raise ValueError(v)
+
+
+def _dec(b):
+    try:
+        return b.decode("utf-8")
+    except UnicodeDecodeError:
+        return b
+
+
+def h_kv_property(ik0: int, iv0: int, ik1: int, iv1: int, n: int) -> bool:
+    """
+    pre: 0 <= ik0 < 6 and 0 <= iv0 < 6 and 0 <= ik1 < 6 and 0 <= iv1 < 6 and 1 <= n <= 2
+    pre: n == 2 or (ik1 == 0 and iv1 == 0)
+    post: __return__
+    """
+    # ParquetFile.key_value_metadata over stored entries whose keys / values are any byte strings (valid UTF-8 or
+    # not, empty or not): each key and each value is reported as text when it is text and as the stored bytes
+    # otherwise - independently of each other
+    import fastparquet.api as api
+    ents = [(RAW[_pk(ik0, 5)], RAW[_pk(iv0, 5)]), (RAW[_pk(ik1, 5)], RAW[_pk(iv1, 5)])][:_pk(n, 2)]
+    pf = object.__new__(api.ParquetFile)
+    pf.__dict__.update(_kvm=None, fmd=parquet_thrift.FileMetaData(
+        key_value_metadata=[parquet_thrift.KeyValue(key=k, value=v) for k, v in ents]))
+    got = pf.key_value_metadata
+    want = {}
+    for k, v in ents:
+        want[_dec(k)] = _dec(v)
+    return got == want
+
+
+def replay_h_kv_property(ik0, iv0, ik1, iv1, n):
+    import os, shutil, tempfile
+    import pandas as pd
+    import fastparquet
+    ents = [(RAW[ik0], RAW[iv0]), (RAW[ik1], RAW[iv1])][:n]
+    d = tempfile.mkdtemp(prefix="c16-")
+    try:
+        fn = os.path.join(d, "t.parq")
+        fastparquet.write(fn, pd.DataFrame({"a": [1]}))
+        from vf.pyshim.realfile import rewrite_footer
+
+        def setkv(fmd):
+            fmd.key_value_metadata = [parquet_thrift.KeyValue(key=k, value=v) for k, v in ents]
+        rewrite_footer(fn, setkv)
+        got = fastparquet.ParquetFile(fn).key_value_metadata
+        want = {}
+        for k, v in ents:
+            want[_dec(k)] = _dec(v)
+        if got != want:
+            return True, "stored key-value entries %r are reported as %r, expected %r" % (ents, got, want)
+        return False, "verbatim"
+    finally:
+        shutil.rmtree(d, ignore_errors=True)
